@@ -131,6 +131,33 @@ def build_query(hyps, goal, extra_decls=(), get_values=None, logic='ALL', opaque
             for n in REGISTRY:
                 if n in txt:
                     names.add(n)
+    # definitional axioms of array-valued helper functions, instantiated for the applications that occur
+    extra_hyps = []
+    if 'shift' in names:
+        seen = set()
+        stack = list(hyps) + [goal]
+        found = {}
+        while stack:
+            x = stack.pop()
+            if id(x) in seen:
+                continue
+            seen.add(id(x))
+            if x.op == 'shift':
+                found[x.smt()] = x
+            if x.op == 'forall':
+                stack.append(x.args[1])
+            elif x.op not in ('int', 'bool', 'strlit', 'var', 'raw'):
+                stack.extend(a for a in x.args if isinstance(a, t.T))
+        i = t.var('sh!', t.INT)
+        for x in found.values():
+            if any(v.endswith('!|') or v.endswith('!') for v in x.free_vars()):
+                continue
+            ax = t.forall([i], t.eq(t.select(x, i), t.select(x.args[0], t.add(x.args[1], i))), pats=[[t.select(x, i)]])
+            if ax.smt() not in {h.smt() for h in hyps}:
+                extra_hyps.append(ax)
+        for h in extra_hyps:
+            h.free_vars(fv)
+    hyps = list(hyps) + extra_hyps
     lines = ['(set-logic %s)' % logic, '(set-option :produce-models true)', DATATYPES.strip()]
     for spec in closure(names):
         lines.append(spec.decl if (opaque and spec.decl) else spec.smt)
